@@ -284,9 +284,48 @@ theorem frac_mem {a b v : Rat} (hab : a < b) (h0 : a ≤ v) (h1 : v ≤ b) :
 
 theorem cubicAt_eq (o : Obj) (j : Nat) (v : Rat) : o.cubicAt j v = o.pref * cubic o.N o.x o.y j v := rfl
 
-theorem interpolate_eq {o o' : Obj} {v : Rat} {j : Nat} (hl : o.locate v = .ok (j, o')) :
-    o.interpolate v = .ok (o.pref * cubic o.N o.x o.y j v, o') := by
+theorem StrictInc.lt {N : Nat} {x : Nat → Rat} (hx : StrictInc N x) {i : Nat} :
+    ∀ {k : Nat}, i < k → k < N → x i < x k := by
+  intro k
+  induction k with
+  | zero => intro h; omega
+  | succ k ih =>
+    intro hik hk
+    rcases Nat.lt_or_ge i k with h | h
+    · exact lt_trans (ih h (by omega)) (hx k hk)
+    · have : i = k := by omega
+      subst this; exact hx i hk
+
+/-- `Interpolate` as coded after fix 5863798: the value is `Obj.valueAt` of the located interval -/
+theorem interpolate_eq_valueAt {o o' : Obj} {v : Rat} {j : Nat} (hl : o.locate v = .ok (j, o')) :
+    o.interpolate v = .ok (o.valueAt j v, o') := by
   unfold Obj.interpolate; rw [hl]; rfl
+
+/-- the special branch: at the last abscissa the tabulated value itself is returned — by the code's
+    own comparison, for every located interval (no arithmetic involved) -/
+theorem valueAt_last (o : Obj) (j : Nat) : o.valueAt j (o.x (o.N - 1)) = o.pref * o.y (o.N - 1) := by
+  unfold Obj.valueAt; simp
+
+theorem valueAt_of_ne {o : Obj} {j : Nat} {v : Rat} (h : v ≠ o.x (o.N - 1)) : o.valueAt j v = o.cubicAt j v := by
+  unfold Obj.valueAt; simp [h]
+
+/-- fix 5863798 is value-neutral over the rationals: on a strictly increasing table, whenever the located
+    interval brackets the abscissa, the special branch returns what the cubic returns (`cubic_right`) -/
+theorem valueAt_eq_cubicAt {o : Obj} (hx : StrictInc o.N o.x) {j : Nat} (hj : j + 1 < o.N) {v : Rat}
+    (_h0 : o.x j ≤ v) (h1 : v ≤ o.x (j + 1)) : o.valueAt j v = o.cubicAt j v := by
+  by_cases hv : v = o.x (o.N - 1)
+  · have hjN : j + 1 = o.N - 1 := by
+      by_contra hne
+      have : o.x (j + 1) < o.x (o.N - 1) := hx.lt (by omega) (by omega)
+      rw [hv] at h1; linarith
+    subst hv
+    rw [valueAt_last, cubicAt_eq, ← hjN, cubic_right hx hj]
+  · exact valueAt_of_ne hv
+
+theorem interpolate_eq {o o' : Obj} {v : Rat} {j : Nat} (hl : o.locate v = .ok (j, o'))
+    (hv : o.valueAt j v = o.cubicAt j v) :
+    o.interpolate v = .ok (o.pref * cubic o.N o.x o.y j v, o') := by
+  rw [interpolate_eq_valueAt hl, hv]; rfl
 
 theorem locate_state_only {o o' : Obj} {v : Rat} {j : Nat} (hl : o.locate v = .ok (j, o')) :
     o'.N = o.N ∧ o'.xs = o.xs ∧ o'.ys = o.ys ∧ o'.pref = o.pref := by
